@@ -34,7 +34,7 @@ def run(chk):
         if ok:
             proved, f2 = V.prove(chk, "C10", [])
             fails += f2
-        pkg = json.load(open(os.path.join(V.GEN, "pkg.json"))) if ok else None
+        pkg = CS.load_pkg(mmv)
         cases, meta = [], []
         for sn in mmv.S:
             if sn == "LSPObject" or (pkg and sn not in pkg["classes"]):
